@@ -10,7 +10,7 @@ from . import flow
 from .common import enum_switches_any, variant_names
 from .facts import op_place
 
-CRATES = {"gluon_parser"}
+CRATES = {"gluon_parser", "gluon_base"}
 THOROUGH_CONFIGS = ["default", "nodefault"]  # thorough also analyses the default-feature and the no-default-features builds
 FN = "gluon_parser::infix::reparse"
 FIX = "gluon_parser::infix::Fixity"
@@ -163,6 +163,7 @@ def run(fb, rep, tier, cfg):
     else:
         rep.violation(R, "drain-order", "the final drain no longer reduces the operator stack from its top", b.where())
     e13b(fb, rep)
+    e13c(fb, rep)
 
 
 # ---------------------------------------------------------------------------------------------------------------
@@ -243,3 +244,65 @@ def e13b(fb, rep):
         rep.ok(R, "&& and || are right associative (short-circuit chains nest to the right)")
     else:
         rep.violation(R, "bool-operator-fixity", "&& is %s, || is %s (both must be Right)" % (a[1], o[1]), "parser/src/infix.rs")
+
+
+def e13c(fb, rep):
+    """E13c — the collector of declared fixities sees every operator a pattern binds.
+
+    `reparse_infix` first walks the tree with a visitor whose `visit_pattern` records the `#[infix]` metadata of the operators a
+    pattern introduces (role: the `ast::Visitor` impl whose `visit_pattern` inserts into `OpTable.operators`, directly or through
+    a helper).  Operators can be bound arbitrarily deep (`{ ops = { (-->) } }`, `{ (-->) = (~>) }`, `(a, { (<+) })`), so for every
+    pattern variant that has sub-patterns (`As`, `Constructor`, `Record`, `Tuple`) the override must continue into them: from that
+    variant's switch edge every path to a return passes `walk_pattern` (or a recursive `visit_pattern`).  An operator the collector
+    misses has no table entry; the re-parser swallows `UndefinedFixity` for it and the chain keeps the default right-nested grouping."""
+    R = "E13c"
+    rep.rule(R, "the fixity collector continues into the sub-patterns of every pattern variant that has any")
+    PAT = "gluon_base::ast::Pattern"
+    cands = []
+    for im in fb.impls:
+        tr = im.get("trait") or ""
+        if not (tr.startswith("gluon_base::ast::") and tr.endswith("Visitor")) or im["_crate"].name != "gluon_parser":
+            continue
+        for it in im["items"]:
+            if it["name"] == "visit_pattern":
+                b = fb.body(it["path"])
+                if b is None:
+                    continue
+                helpers = [b] + [fb.body(c.res) for c in b.calls() if fb.body(c.res) is not None and c.res.startswith("gluon_parser::")]
+                if any(("field", "gluon_parser::infix::OpTable", "operators") in flow.sources(h, c.args[0], depth=10)
+                       for h in helpers for c in h.calls() if c.args and "HashMap" in c.res and c.res.rsplit("::", 1)[1] == "insert"):
+                    cands.append(b)
+    if len(cands) != 1:
+        rep.anchor_lost(R, "the visit_pattern override that records declared fixities (%d candidates)" % len(cands))
+        return
+    b = cands[0]
+    names = variant_names(fb, PAT)
+    with_children = [n for n in ("As", "Constructor", "Record", "Tuple") if n in names]
+    cont = [c.bb for c in b.calls() if c.res.endswith("::walk_pattern") or (c.fn or "").endswith("Visitor::visit_pattern")]
+    sw = None
+    for bb, place, m, other in enum_switches_any(b):
+        if len(m) + (1 if other is not None else 0) >= 2:
+            sw = (bb, m, other)
+            break
+    rets = set(b.return_blocks())
+    if sw is None:
+        if cont and not (b.reachable(0, avoid_blocks=cont) & rets):
+            rep.ok(R, "%s: walk_pattern on every path" % b.id)
+        else:
+            rep.violation(R, "subpatterns-not-visited|*", "%s can return without visiting the sub-patterns" % b.id, b.where())
+        return
+    bb, m, other = sw
+    n = 0
+    for v in with_children:
+        idx = names.index(v)
+        tgt = m.get(idx, other)
+        if tgt is None:
+            continue
+        n += 1
+        leak = b.reachable(tgt, avoid_blocks=cont) & rets if tgt not in cont else set()
+        if leak:
+            rep.violation(R, "subpatterns-not-visited|%s" % v, "%s: for Pattern::%s the collector returns without walk_pattern: operators bound in its sub-patterns "
+                          "(nested record patterns, renamed fields) keep no declared fixity and are grouped by the fallback" % (b.id, v), b.where(), path=sorted(leak))
+        else:
+            rep.ok(R, "Pattern::%s: sub-patterns are visited (walk_pattern on every path)" % v)
+    rep.floor(R, "pattern variants with sub-patterns examined", n, 4)
